@@ -778,6 +778,7 @@ def judge(ctx, todo, outs):
 # ---------------------------------------------------------------- the cases -------------------------------
 
 HIST_COUNTER = [0]
+FORCE_ORDER = [None]     # replay: the recorded order of settings
 
 
 def image_case(ctx, case, lines, todo, stats, full_polarity):
@@ -793,7 +794,7 @@ def image_case(ctx, case, lines, todo, stats, full_polarity):
         ok = check_partition(ctx, case, both, pos, neg, none, which) and ok
         fresh = {(False, False): both, (False, True): pos, (True, False): neg, (True, True): none}
         HIST_COUNTER[0] += 1
-        ok = history_case(ctx, case, fresh, HISTORIES[HIST_COUNTER[0] % len(HISTORIES)], negate=negate) and ok
+        ok = history_case(ctx, case, fresh, FORCE_ORDER[0] or HISTORIES[HIST_COUNTER[0] % len(HISTORIES)], negate=negate) and ok
         fluxes = [c['peak_flux'] for c in both]
         for (np_, nn_, cat) in [(0, 0, both), (0, 1, pos), (1, 0, neg), (1, 1, none)]:
             idx = {key(c): i for i, c in enumerate(both)}
@@ -1069,6 +1070,8 @@ def replay(ctx, rec):
     case = {k: v for k, v in rec['case'].items() if k not in ('island', 'image', 'negated', 'nopositive', 'nonegative', 'history')}
     lines, todo = [], []
     stats = new_stats()
+    if rec['case'].get('history'):
+        FORCE_ORDER[0] = [tuple(bool(b) for b in h) for h in rec['case']['history']]
     if case.get('kind') == 'image':
         image_case(ctx, case, lines, todo, stats, full_polarity=True)
     elif case.get('kind') == 'injected-filter':
